@@ -197,7 +197,9 @@ class C16(Property):
     if part == "ctrl":
       nset = W.span("nset", 0, 6)
       return {"part": "ctrl", "mode": W.weighted("mode", [
-        (2, "direct"), (2, "add"), (1, "rmul"), (1, "copy")]),
+        (2, "direct"), (2, "add"), (1, "rmul"), (1, "copy"), (1, "map"),
+        (1, "limit-skip"), (1, "mixer-event")]),
+        "riter": W.chance("riter", 1, 3),
         "nset": nset,
         "reads": [W.weighted("rk", [(3, 1), (2, 2), (1, 5), (1, 0)])
                   for _ in range(W.span("nreads", 1, 8))]}
@@ -666,11 +668,22 @@ class C16(Property):
     elif mode == "rmul":
       out = cs * Stream(src)
       f = lambda d, v: v * d
+    elif mode == "map":
+      # shaped in place: still the same object, still the current value
+      out = cs.map(lambda v: ("m", v))
+      f = lambda d, v: ("m", v)
+    elif mode == "limit-skip":
+      out = cs.limit(100000).skip(2)
+      f = lambda d, v: v
+    elif mode == "mixer-event":
+      out = self.ls.Streamix(zero=0)
+      out.add(0, cs)
+      f = lambda d, v: 0 + v
     else:
       out = cs.copy()
       f = lambda d, v: v
     sets = [100 + 13 * i for i in range(wl["nset"])]
-    if mode in ("direct", "copy") and len(sets) >= 2:
+    if mode in ("direct", "copy", "map", "limit-skip") and len(sets) >= 2:
       sets[1] = None          # None is a value like any other
     reads = list(wl["reads"])
     late = 0
@@ -699,7 +712,11 @@ class C16(Property):
       else:
         k = reads.pop(0)
         try:
-          got = out.take(k)
+          if wl.get("riter"):
+            it_ = iter(out)        # plain iteration instead of take()
+            got = [next(it_) for _ in range(k)]
+          else:
+            got = out.take(k)
         except Exception as exc:
           raise _Mismatch("take-raised", "take(%d) raised %r" % (k, exc))
         want = [f(n[0] + j + 1, current) for j in range(k)]
